@@ -56,6 +56,8 @@ var callKinds = []callKind{
 	{name: "sync-3-buffers-s2fail-early", copy: true, fail: "s2dense"},
 	{name: "small-unbalanced", copy: true, fail: "unbalanced"},              // ends in a closing bracket with one scope still open:
 	{name: "large-unbalanced", copy: true, large: true, fail: "unbalanced"}, // stage 1 accepts, stage 2 runs out of indexes
+	{name: "small-ok-spread-over-lines", copy: true, fail: "pretty"},        // a valid document with line feeds between its tokens: Parse accepts
+	{name: "small-two-documents-on-two-lines", copy: true, fail: "two"},     // ... and rejects two documents (whatever the object parsed before)
 	{name: "small-ok-default-options", copy: true, defaultOpts: true},
 	{name: "large-ok-default-options", copy: true, large: true, defaultOpts: true},
 }
@@ -93,6 +95,18 @@ func buildCall(r *rand.Rand, k callKind, flush, slots int) builtCall {
 			return pipe.BuildDocMin(r, structurals, structurals-flush/3, false, minLen)
 		}
 		return pipe.BuildDocMin(r, structurals, -1, false, minLen)
+	}
+	if k.fail == "pretty" {
+		d := pipe.BuildDoc(r, structurals, -1, false)
+		bc.text = append(append([]byte("{\n\"k\"\n:\n"), d.Text...), "\n}\n"...)
+		bc.valid = true
+		bc.roots = []abs.Value{{K: 'o', Obj: []abs.Member{{Key: []byte("k"), Val: d.Value}}}}
+		return bc
+	}
+	if k.fail == "two" {
+		a, b := pipe.BuildDoc(r, 12, -1, false), pipe.BuildDoc(r, 9, -1, false)
+		bc.text = append(append(append([]byte{}, a.Text...), '\n'), b.Text...)
+		return bc
 	}
 	if k.fail == "unbalanced" {
 		d := pipe.BuildDocMin(r, structurals, -1, false, minLen)
